@@ -7,6 +7,8 @@ C08  Attribute values survive print/parse losslessly; parsing never fails.
     alphabet up to a length bound (exhaustive), random strings beyond; inferred and supplied dialects.
 """
 import itertools
+import json
+import os
 import time
 
 from gvmon.gen import records as R
@@ -18,7 +20,8 @@ RULE = ("(a) mappings word-like key -> non-empty list of non-empty strings over 
         "or whitespace character; (b) every string over the alphabet {; = SP \" , a % 1} up to length 6 (quick) / 9 "
         "(thorough) through the inferring parser, up to length 4 through every supplied dialect, random strings to length "
         "200; non-trivial = contains a structural character; distinct by mapping+dialect / by string")
-REQUIRED = ["interludes with ignore_url_escape_characters switched on and restored", "(a) print/parse round trips", "(b) strings parsed (inferred)", "(b) strings parsed (supplied dialect)",
+REQUIRED = ["(b) long-run strings parsed under a watchdog", "(a) round trips under a dialect whose flags are truthy/falsy non-bool values",
+            "interludes with ignore_url_escape_characters switched on and restored", "(a) print/parse round trips", "(b) strings parsed (inferred)", "(b) strings parsed (supplied dialect)",
             "_reconstruct contract evaluations"]
 ASSUMPTIONS = [
     "GFF3-style = dialect dictionaries with fmt 'gff3' (percent-encoding), key/value separator '=' or ' '; GTF-style = fmt 'gtf'",
@@ -231,9 +234,104 @@ def total(ctx, s, d, case=None):
     ctx.mon("(b) strings parsed (supplied dialect)" if d else "(b) strings parsed (inferred)")
 
 
+def long_runs(ctx, rng, ds):
+    """'Parsing terminates' for strings far beyond the exhaustive bound: long unbroken runs of word characters, of one
+    repeated character, of separators and of quotes, where a backtracking pattern or a quadratic loop would show.  The
+    strings are parsed in a child process under a generous watchdog (the work takes milliseconds); a string on which
+    the child stops is tried again alone before anything is reported."""
+    import subprocess
+    import sys
+    here = os.path.dirname(os.path.dirname(os.path.dirname(os.path.abspath(__file__))))
+    items = []
+    for L in (24, 25, 26, 30, 40, 64, 200, 1000, 5000):
+        word = "".join(rng.choice("abcXYZ_019") for _ in range(L))
+        for s in (word, word + " x", word + ";", word + '"', word + "=", word + "=v", "k=" + word, word + ".", word + "-a=b",
+                  word + " " + word, 'k "' + word, word.replace("a", ".") + "=1", "a" * L, "a" * L + "!", "_" * L + " ",
+                  ";" * L, '"' * L, "=" * L, " " * L + "k", ("ab=" * L)[:L], ("a;" * L)[:L], ("a," * L)[:L] + "=", "%" * L,
+                  "k=" + "%4" * (L // 2), 'k "' + '\\"' * (L // 3) + '"', "k" + " " * L + "v", ("k v ; " * L)[:L]):
+            items.append([s, None])
+            if L <= 200:
+                items.append([s, rng.choice(ds)])
+    f = ctx.tmp(".strings.json")
+    with open(f, "w") as fh:
+        json.dump(items, fh)
+
+    def child(path, timeout):
+        env = dict(os.environ)
+        p = subprocess.Popen([sys.executable, "-m", "gvmon.procs.c08_parse", path], cwd=here, env=env,
+                             stdout=subprocess.PIPE, stderr=subprocess.PIPE, text=True)
+        try:
+            out, err = p.communicate(timeout=timeout)
+            return "finished", out.split(), err
+        except subprocess.TimeoutExpired:
+            p.kill()
+            out, err = p.communicate()
+            return "timeout", out.split(), err
+    def judge(tokens, its):
+        """(index in progress or None, [(index, cpu_ms)]) from the child's output."""
+        started, ended = None, []
+        i = 0
+        while i < len(tokens):
+            if tokens[i] == "start":
+                started = int(tokens[i + 1])
+                i += 2
+            elif tokens[i] == "end":
+                ended.append((int(tokens[i + 1]), int(tokens[i + 2])))
+                started = None
+                i += 3
+            else:
+                i += 1
+        return started, ended
+    CPU_BOUND_MS = 10000     # the strings take well under 50 ms each; 10 s of CPU time is the stated bound of 'terminates'
+    try:
+        items.sort(key=lambda it: len(it[0]))
+        with open(f, "w") as fh:
+            json.dump(items, fh)
+        status, tokens, err = child(f, 300)
+        started, ended = judge(tokens, items)
+        ctx.mon("(b) long-run strings parsed under a watchdog", len(ended))
+        if ended:
+            worst = max(ended, key=lambda e: e[1])
+            ctx.monitors["max CPU ms for one long-run string"] = max(ctx.monitors.get("max CPU ms for one long-run string", 0), worst[1])
+            if worst[1] > CPU_BOUND_MS:
+                w = items[worst[0]]
+                ctx.violation({"kind": "total", "s": w[0], "dialect": w[1]},
+                              {"why": "parsing a %d-character attribute string took %d ms of CPU time (bound %d ms; such strings take "
+                                      "milliseconds): parsing does not terminate in any useful sense" % (len(w[0]), worst[1], CPU_BOUND_MS),
+                               "string_head": w[0][:80]})
+                return
+        if status == "finished" and tokens and tokens[-1] == "done":
+            return
+        at = started if started is not None else 0
+        witness = items[at]
+        case = {"kind": "total", "s": witness[0], "dialect": witness[1]}
+        if status == "finished":
+            # the child ended early: an exception on that string
+            ctx.violation(case, {"why": "parsing/printing an arbitrary attribute string raised in the child process", "stderr": err[-600:]})
+            return
+        one = ctx.tmp(".one.json")
+        with open(one, "w") as fh:
+            json.dump([witness], fh)
+        status2, tokens2, err2 = child(one, 120)
+        os.unlink(one)
+        _, ended2 = judge(tokens2, [witness])
+        if status2 == "timeout" or (ended2 and ended2[0][1] > CPU_BOUND_MS):
+            ctx.violation(case, {"why": "parsing did not terminate: a child process given only this %d-character string was still "
+                                        "parsing it after 120 s (or used more than %d ms of CPU time)" % (len(witness[0]), CPU_BOUND_MS),
+                                 "string_head": witness[0][:80]})
+        else:
+            from gvmon.run import Inconclusive
+            raise Inconclusive("the long-run batch hit its 300 s watchdog at string %d but that string alone parsed in time" % at)
+    finally:
+        if os.path.exists(f):
+            os.unlink(f)
+
+
 def run(ctx):
     rng = ctx.rng
     ds = dialects()
+    if ctx.shard == 0:
+        long_runs(ctx, rng, ds)
     # (a) round trips
     for _ in range(ctx.budget(24000, 1600000)):
         if rng.random() < 0.0005:
@@ -247,6 +345,14 @@ def run(ctx):
             m[rng.randrange(len(m))][1][0] = "".join(rng.choice(long_chars + ["a"]) for _ in range(rng.choice([255, 256, 257, 300, 700])))
         case = {"kind": "roundtrip", "dialect": d, "mapping": m,
                 "extra": ["x y"] if rng.random() < 0.1 else [], "keep_order": rng.random() < 0.4}
+        if rng.random() < 0.05:
+            # the dialect's flags given as truthy / falsy values that are not the objects True and False
+            t, f_ = rng.choice([(1, 0), ("yes", ""), (2.0, 0.0), ([1], [])])
+            d = dict(d)
+            for k in ("leading semicolon", "trailing semicolon", "quoted GFF2 values", "repeated keys"):
+                d[k] = t if d[k] else f_
+            case["dialect"] = d
+            ctx.mon("(a) round trips under a dialect whose flags are truthy/falsy non-bool values")
         if case["keep_order"] and rng.random() < 0.5:
             d = dict(d, order=[k for k, _ in m][::2])
             case["dialect"] = d
